@@ -1481,3 +1481,105 @@ func c14ErrorFrameIsFrame(p *Program, r *Report) {
 		r.Unresolved("parseFrame: no return with an error result found")
 	}
 }
+
+// c05DebouncersExist: an EVENT frame can arrive on any connection as soon as it is open, and handleEvent hands it to
+// the session's event debouncers without a nil test. The debouncers therefore exist before the first connection is
+// made: every Session field of type *eventDebouncer that is used without a nil test is assigned by an unconditional,
+// top-level statement of NewSession (the constructor), not later in init or under a configuration branch. Otherwise an
+// event pushed by the server (or by a peer that is not a Cassandra node) is a nil dereference on a goroutine without a
+// recover.
+func c05DebouncersExist(p *Program, r *Report) {
+	ns := r.NeedFunc("NewSession")
+	if ns == nil {
+		return
+	}
+	st := p.NamedType("Session")
+	if st == nil {
+		r.Unresolved("type Session not found")
+		return
+	}
+	stt, _ := st.Underlying().(*types.Struct)
+	n := 0
+	for i := 0; stt != nil && i < stt.NumFields(); i++ {
+		f := stt.Field(i)
+		pt, isPtr := f.Type().(*types.Pointer)
+		if !isPtr || typeNameOf(pt.Elem()) != "eventDebouncer" {
+			continue
+		}
+		// used without a nil test somewhere?
+		bare := false
+		for _, u := range p.SortedFuncs() {
+			if u.Decl.Body == nil || u.Pkg != p.Root {
+				continue
+			}
+			info := u.Pkg.TypesInfo
+			g := (*Graph)(nil)
+			ast.Inspect(u.Decl.Body, func(x ast.Node) bool {
+				c, ok := x.(*ast.CallExpr)
+				if !ok {
+					return true
+				}
+				rx := recvExpr(c)
+				if rx == nil || fieldOf(info, rx) != f {
+					return true
+				}
+				if g == nil {
+					g = p.GraphOf(u)
+				}
+				known := false
+				if node, found := g.cfgNodeOf(c); found {
+					if fs, ok := g.GuardFacts().Before(node); ok {
+						if v, k := fs.Known(&ast.BinaryExpr{X: rx, Op: token.NEQ, Y: ast.NewIdent("nil")}); k && v {
+							known = true
+						}
+					}
+				}
+				if !known {
+					bare = true
+				}
+				return true
+			})
+		}
+		if !bare {
+			continue
+		}
+		n++
+		// assigned at the top level of NewSession
+		top := false
+		info := ns.Pkg.TypesInfo
+		for _, s := range ns.Decl.Body.List {
+			if as, ok := s.(*ast.AssignStmt); ok {
+				for _, l := range as.Lhs {
+					if fieldOf(info, l) == f {
+						top = true
+					}
+				}
+			}
+		}
+		elsewhere := ""
+		for _, u := range p.SortedFuncs() {
+			if u.Decl.Body == nil || u.Pkg != p.Root || u == ns {
+				continue
+			}
+			ast.Inspect(u.Decl.Body, func(x ast.Node) bool {
+				if as, ok := x.(*ast.AssignStmt); ok {
+					for _, l := range as.Lhs {
+						if fieldOf(u.Pkg.TypesInfo, l) == f {
+							elsewhere = u.Name
+						}
+					}
+				}
+				return true
+			})
+		}
+		why := "not assigned by a top-level statement of NewSession"
+		if elsewhere != "" {
+			why += " (assigned in " + elsewhere + ")"
+		}
+		r.Check(top, ns.Decl, "Session."+f.Name()+" exists before the first connection is made", "assigned unconditionally in NewSession",
+			"Session."+f.Name()+" is used without a nil test by the event path but is "+why+": an EVENT frame that arrives before (or without) that assignment is a nil dereference on the event goroutine, which has no recover")
+	}
+	if n == 0 {
+		r.OK(ns.Decl, "no event debouncer of the session is used without a nil test", "nothing to decide")
+	}
+}
